@@ -149,6 +149,10 @@ def random_natives(contract, case, n, seed):
 def is_hit(ob_name, ob_kind, nat, strict=False):
     failing = [k for k, v in nat['posts'].items() if v is False]
     hit = ob_name in failing
+    if not hit and nat['posts'].get(ob_name) is True:
+        # the twin evaluated this very clause on the instance and it holds there: another clause failing on the same
+        # instance is reported under its own name, not under this one
+        return False, failing
     if strict:
         # for obligations without a VC: any failing native predicate of the same property counts, but a generic
         # "modelled" placeholder obligation is attributed to whatever fails
@@ -157,6 +161,9 @@ def is_hit(ob_name, ob_kind, nat, strict=False):
     if not hit and ob_kind != 'post':
         # safety obligation: natively it shows as an exception the contract does not allow
         hit = nat['outcome'].startswith('raise') and any('no_spurious_raise' in k or 'refuses_only' in k for k in failing)
+    if not hit and ob_kind == 'index' and not nat['outcome'].startswith('raise'):
+        # an index / key obligation that fails shows natively as an exception; the call returned normally here
+        return False, failing
     if not hit:
         # the run-time twin may phrase a clause set-based where the VC is structural (e.g. mapping rows):
         # a failing native predicate of the same property on this model is the same violation
